@@ -1,7 +1,7 @@
 """C16: address preference sorting loses nothing and puts the preferred family first (level: other)."""
 import itertools
 import re
-from core import (norm, L_call, L_variant, arms, assigns_to_return, closure_arg_of, sig, const_of, awaits, CallSite, AbsPaths, returned_comparison, L_opt)
+from core import (norm, L_call, L_variant, arms, assigns_to_return, closure_arg_of, sig, const_of, awaits, CallSite, AbsPaths, returned_comparison, L_opt, INT_CMP)
 from mir import op_place
 import c11
 
@@ -291,10 +291,46 @@ def C16_7(ctx, facts):
                       "%s::%s is classified %s (expected %s): the family is not read off the address variant" % (st_name, fam, got, fam), u.where())
 
 
+def C16_1s(ctx, facts):
+    """sort_preferred as a decision table over small lists: for every list of address families up to length 4 and every
+    preference (none, IPv4, IPv6) the (expanded) body is evaluated abstractly with the sequence model of seqmodel.py and the
+    resulting list is compared with the specification - the first address of each family moves to the front, the preferred
+    family first (IPv6 without preference), everything else keeps its order; nothing is lost or duplicated.  This replaces
+    the rules that described the *shape* of today's implementation (index scan, removal order, tail match): any
+    implementation that computes the same permutation passes, one that does not is reported with the offending list."""
+    import itertools
+    import seqmodel
+    f = facts.unit(facts.fn(SP), expand=True)
+    ctx.touched(f)
+    rows = bad = 0
+    first_bad = None
+    for L in range(0, 5):
+        for fams in itertools.product(("V4", "V6"), repeat=L):
+            for pref in (None, "V4", "V6"):
+                elems = tuple(("const", "%s#%d" % (x.lower(), i)) for i, x in enumerate(fams))
+                st = {1: ("refval", ("variant", "SocketAddrs", ((0, ("seq", 1)),))), -1: ("list", elems),
+                      2: (("variant", "None", ()) if pref is None else ("variant", "Some", ((0, ("variant", pref, ())),)))}
+                try:
+                    outs = AbsPaths(f, limit=8000, raw_oracles=seqmodel.RAW_ORACLES, oracles=[INT_CMP]).outcomes(state=st, extra_keys=(-1,))
+                except AbsPaths.Undecided as e:
+                    ctx.undecided("sort_preferred|row|%s|prefer=%s" % ("".join(x[1] for x in fams) or "-", pref), str(e), f.where())
+                    continue
+                rows += 1
+                got = [[e[1] for e in o[2][0][1]] if (o[2][0] is not None and o[2][0][0] == "list") else None for o in outs]
+                exp = seqmodel.expected_sort(list(fams), pref)
+                if got != [exp]:
+                    bad += 1
+                    if first_bad is None:
+                        first_bad = (fams, pref, got, exp)
+    ctx.floor("sort_preferred|table-rows", rows, 93, "lists x preferences evaluated")
+    ctx.check(bad == 0, "sort_preferred|table", "for all %d (list, preference) scenarios the result is the specified permutation" % rows,
+              "%d scenario(s) differ from the specification, e.g. families %s with preference %s give %s, expected %s" %
+              ((bad,) + (first_bad if first_bad else ("-", "-", "-", "-"))), f.where())
+
+
 RULES = [
     ("C16.7", C16_7, ["default"]),
-    ("C16.1", C16_1_2, ["default"]),
-    ("C16.3", C16_3, ["default"]),
+    ("C16.1", C16_1s, ["default"]),
     ("C16.4", C16_4_5, ["default"]),
     ("C16.6", c11.C11_1, ["default"]),
 ]
